@@ -106,10 +106,10 @@ class Hist:
                 steps += [("call", runner([certs_by_ep[op[1]]])), ("run", {"attempts": 1})]
             elif k == "refuse":
                 # the CA answers its next account-update requests on op[1] with an error of its own
-                def setr(sc, e=op[1], typ=op[2]):
+                def setr(sc, e=op[1], typ=op[2], kind=(op[3] if len(op) > 3 else "account")):
                     ca = sc.cas[e]
                     with ca.mu:
-                        ca.script = [{"kind": "account", "nth": ca.kind_count.get("account", 0) + 1, "repeat": 1, "fault": "acme:" + typ}]
+                        ca.script = [{"kind": kind, "nth": ca.kind_count.get(kind, 0) + 1, "repeat": 1, "fault": "acme:" + typ + (":403" if typ == "unauthorized" else "")}]
                 steps.append(("call", setr))
             elif k == "forget":
                 steps.append(("call", (lambda e: (lambda sc: sc.cas[e].forget_account()))(op[1])))
@@ -147,6 +147,10 @@ def histories(tier, seed):
         # a contacts edit followed by renewals and restarts with nothing edited, the CA listing its contacts in an order of its own
         [("renew", "A"), ("contacts", c2), ("renew", "A"), ("renew", "A"), ("restart",), ("renew", "A")],
         [("renew", "A"), ("renew", "B"), ("contacts", ["z@example.org", "a@example.org", "m@example.org"]), ("renew", "A"), ("renew", "B"), ("renew", "A"), ("renew", "B")],
+        # the CA's generic refusal (unauthorized) of an account update, a roll-over or an order says nothing about the account being unknown
+        [("renew", "A"), ("contacts", c2), ("refuse", "A", "unauthorized"), ("renew", "A"), ("renew", "A")],
+        [("renew", "A"), ("key", "ecdsa_p384"), ("refuse", "A", "unauthorized", "keyChange"), ("renew", "A"), ("renew", "A"), ("restart",), ("renew", "A")],
+        [("renew", "A"), ("refuse", "A", "unauthorized", "newOrder"), ("renew", "A"), ("renew", "A")],
         # key types that share a signature algorithm
         [("key", "rsa2048"), ("renew", "A"), ("key", "rsa4096"), ("restart",), ("renew", "A"), ("both", c2, "rsa2048"), ("renew", "A")],
         # binding and contacts change together; the contacts update that follows the new registration is refused once
@@ -223,7 +227,7 @@ def account_layer(x):
                 d = e.get("detail") or {}
                 st = (e.get("resp") or {}).get("status")
                 typ = e.get("resp_type") or ""
-                if e["kind"] == "account" and str(e.get("fault") or "").startswith("acme:"):
+                if e["kind"] in ("account", "keyChange", "newOrder") and str(e.get("fault") or "").startswith("acme:"):
                     out.append({"e": "CaRefused", "ep": e["ep"]})
                 if typ.endswith("accountDoesNotExist"):
                     out.append({"e": "CaUnknown", "ep": e["ep"]})
